@@ -303,7 +303,7 @@ def commit(bk, st):
                 continue
             if pk['type'] == 'PUBREC':
                 for rec in bk.pubs[addr]:
-                    if rec['qos'] and rec['id'] == pk['id'] and st.pre_stage.get(id(rec)) == 'inflight' and rec['txs']:
+                    if rec['qos'] == 2 and rec['id'] == pk['id'] and st.pre_stage.get(id(rec)) == 'inflight' and rec['txs']:
                         rec['pubrec'] = True
             if pk['type'] == 'PINGRESP':
                 for pg in pr['pings']:
@@ -512,9 +512,10 @@ class C05(Monitor):
                 continue
             rec = r['rec']
             p_ok = op[0] == 'recv' and bk.proto(st.p) is not None and bk.proto(st.p)['addr'] == r['addr']
-            acks = [pk for raw, pk in st.completed if pk and pk['type'] in ('PUBACK', 'PUBCOMP') and pk['id'] == rec['id']] if p_ok else []
+            fits = 'PUBACK' if rec['qos'] == 1 else 'PUBCOMP'      # the acknowledgement its QoS level requires
+            acks = [pk for raw, pk in st.completed if pk and pk['type'] == fits and pk['id'] == rec['id']] if p_ok else []
             if not acks:
-                self.flag('publish-ok-unjustified', 'publish Deferred (qos %d, id %r) succeeded without a PUBACK/PUBCOMP for its id in this step' % (rec['qos'], rec['id']), st)
+                self.flag('publish-ok-unjustified', 'publish Deferred (qos %d, id %r) succeeded without a %s for its id in this step' % (rec['qos'], rec['id'], fits), st)
             elif rec['qos'] == 2 and all(pk['type'] == 'PUBCOMP' for pk in acks) and not rec['pubrec'] and not any(pk and pk['type'] == 'PUBREC' and pk['id'] == rec['id'] for raw, pk in st.completed):
                 self.flag('pubcomp-before-pubrec', 'QoS 2 publish succeeded on PUBCOMP without a PUBREC', st)
             if not rec['txs']:
@@ -528,7 +529,8 @@ class C05(Monitor):
                 a = pr['addr']
                 def known(pk):
                     want = 'inflight' if pk['type'] in ('PUBACK', 'PUBREC') else 'released'
-                    return any(r['qos'] and r['id'] == pk['id'] and st.pre_stage.get(id(r)) == want for r in bk.pubs[a])
+                    q = {'PUBACK': 1, 'PUBREC': 2, 'PUBCOMP': 2}[pk['type']]     # an acknowledgement of the wrong type for the message's QoS opens or closes nothing
+                    return any(r['qos'] == q and r['id'] == pk['id'] and st.pre_stage.get(id(r)) == want for r in bk.pubs[a])
                 if not any(known(pk) for raw, pk in st.completed):
                     if step_quiet(st) or st.timers != st.pre_timers:
                         self.flag('unknown-ack-effect', 'acknowledgement for an identifier with no open exchange had an effect: %s' % [x['k'] for x in st.ev], st)
@@ -808,6 +810,8 @@ class C09(Monitor):
                 rec = e.get('rec')
                 if rec is None:
                     self.flag('pubrel-unknown', 'PUBREL id %d written with no QoS 2 exchange open for it' % pk['id'], st)
+                elif rec['qos'] != 2:
+                    self.flag('pubrel-not-qos2', 'PUBREL id %d written for a QoS %s message' % (pk['id'], rec['qos']), st)
                 elif e.get('first') and not rec['pubrec'] and not any(p2 and p2['type'] == 'PUBREC' and p2['id'] == pk['id'] for raw, p2 in st.completed):
                     self.flag('pubrel-before-pubrec', 'PUBREL id %d written before any PUBREC for it' % pk['id'], st)
             if pk['type'] == 'PUBLISH' and pk['qos'] == 2 and not e.get('first'):
@@ -1205,7 +1209,14 @@ class C16(Monitor):
             if e['k'] == 'fired' and e['ok']:
                 r = bk.dfd.get(e['d'])
                 want = {'connect': ('CONNACK',), 'publish': ('PUBACK', 'PUBCOMP'), 'subscribe': ('SUBACK',), 'unsubscribe': ('UNSUBACK',)}.get(r['kind'] if r else None, ())
-                if not any(pk['type'] in want for pk in wellformed):
+                rec = r.get('rec') if r else None
+                if rec is not None and r['kind'] == 'publish':
+                    want = ('PUBACK',) if rec['qos'] == 1 else ('PUBCOMP',)
+                if rec is not None and r['kind'] in ('publish', 'subscribe', 'unsubscribe'):
+                    just = any(pk['type'] in want and pk.get('id') == rec['id'] for pk in wellformed)
+                else:
+                    just = any(pk['type'] in want for pk in wellformed)
+                if not just:
                     self.flag('unjustified-success', '%s Deferred succeeded in a step that received no well-formed %s' % (r['kind'] if r else '?', '/'.join(want)), st)
         # reaction to malformed input: at most abort
         if st.completed and all(pk is None or (pk['type'] == 'PUBLISH' and pk['qos'] == 3) for raw, pk in st.completed):
